@@ -41,7 +41,8 @@ static int op_radlen(int argc, char **argv, FILE *out) {
    and calls the real find_clconf / find_srvconf.  -> idx | none | cfgerr */
 /* udprd: the REAL radudpget(s, NULL, &server, &buf) — the reader of the proxy's UDP client socket — on a loopback socket. The
    datagrams are sent, in order, from sockets bound to the given loopback addresses and ports; a last one from an address of
-   its own (a block appended behind all others) ends the run. Output: <id>@<block> for every datagram handed on, in order. */
+   its own (a block appended behind all others, so that it is always taken; identifier 255, which no other datagram has) ends
+   the run. Output: <id>@<block> for every datagram handed on, in order. */
 extern int radudpget(int s, struct client **client, struct server **server, unsigned char **buf);
 static int h_udprd(struct list *confs, int type, int ndg, char **dg_tok, FILE *out) {
     struct sockaddr_in ra, sa;
@@ -49,7 +50,7 @@ static int h_udprd(struct list *confs, int type, int ndg, char **dg_tok, FILE *o
     int rs = socket(AF_INET, SOCK_DGRAM, 0), es = socket(AF_INET, SOCK_DGRAM, 0), k, one = 1, first = 1, ok = 1;
     struct clsrvconf *cur, *sent;
     struct list_node *e;
-    char hpbuf[64], *hp[2];
+    char hpbuf[64], *hp[3];
     uint8_t pkt[20], *buf = NULL;
     struct server *srv = NULL;
     struct timeval tv = {5, 0};
@@ -71,7 +72,8 @@ static int h_udprd(struct list *confs, int type, int ndg, char **dg_tok, FILE *o
     sent->type = type;
     snprintf(hpbuf, sizeof(hpbuf), "127.9.9.9:%d", ntohs(sa.sin_port));
     hp[0] = hpbuf;
-    hp[1] = NULL;
+    hp[1] = "127.9.9.9/31"; /* … and by its address alone, so that a reader that got the ports wrong still ends the run and shows what it took */
+    hp[2] = NULL;
     if (!addhostport(&sent->hostports, hp, "1812", 1) || !resolvehostports(sent->hostports, AF_UNSPEC, SOCK_DGRAM))
         return 0;
     sent->servers = calloc(1, sizeof(struct server));
@@ -115,7 +117,7 @@ static int h_udprd(struct list *confs, int type, int ndg, char **dg_tok, FILE *o
     for (;;) {
         int idx = -1, n = 0;
         radudpget(rs, NULL, &srv, &buf);
-        if (srv == sent->servers)
+        if (buf[1] == 255) /* the closing datagram; it may well be attributed to an earlier block (a /8 network holds 127.9.9.9 too) */
             break;
         for (e = list_first(confs); e; e = list_next(e), n++)
             if (((struct clsrvconf *)e->data)->servers == srv)
